@@ -293,6 +293,9 @@ BITS = ['district totals', 'party totals', 'no seat without votes / non-negative
         'every cell a divisor-rule rounding of votes x multipliers']
 
 
+_TIMEOUTS = [0]      # time-outs of the implementation seen in this run (all streams)
+
+
 def judge(ctx, stream, cases, limit):
     """run the implementation on every case, then let the extracted checker decide"""
     import votelib.evaluate.core as core
@@ -316,11 +319,15 @@ def judge(ctx, stream, cases, limit):
         ctx.evaluations += 1
         ctx.dist['stream:' + stream] += 1
         tgt = district_target(c)
+        # an implementation that keeps running into the wall-clock limit would cost the full limit for every such case: after three
+        # time-outs the limit drops to 2 s, after ten to 1 s, without the generous second try
         h = {}
-        r = common.call_impl(lambda: run_impl(c, h), limit)
-        if r[0] == 'err' and r[1] == common.E['TIMEOUT']:
+        r = common.call_impl(lambda: run_impl(c, h), limit if _TIMEOUTS[0] < 3 else 2 if _TIMEOUTS[0] < 10 else 1)
+        if r[0] == 'err' and r[1] == common.E['TIMEOUT'] and _TIMEOUTS[0] < 3:
             h = {}
             r = common.call_impl(lambda: run_impl(c, h), 3 * limit)      # once more, generously (loaded machine)
+        if r[0] == 'err' and r[1] == common.E['TIMEOUT']:
+            _TIMEOUTS[0] += 1
         runs.append((c, tgt, r))
         holds.append(h)
     lines, idx = [], []
